@@ -101,8 +101,18 @@ fn gen(ctx: &GenCtx, i: u64, local: bool) -> Option<Run> {
     spec.default_validators = vlayer == Layer::Batteries && (layer == Layer::Batteries || r.chance(1, 2));
     spec.hash_seed = r.next();
     let v = rb.verifier(spec);
-    let n = 1 + r.usize(3);
+    // builder layers: sometimes the same builder object issues further tokens; every one must round-trip
+    let mut toks = vec![t.clone()];
+    if t.builder.is_some() && r.chance(1, 3) {
+        for _ in 0..1 + r.usize(2) {
+            if let Some(t2) = rebuild(&mut rb, &mut r, &toks[toks.len() - 1]) {
+                toks.push(t2);
+            }
+        }
+    }
+    let n = toks.len().max(1 + r.usize(3));
     for k in 0..n {
+        let t = &toks[k % toks.len()];
         // delivery delay: inside the default one-hour lifetime (strictly), sometimes at/over the edges
         let d = match r.below(12) {
             0 => 1,
@@ -120,7 +130,7 @@ fn gen(ctx: &GenCtx, i: u64, local: bool) -> Option<Run> {
         // keep both reads inside (nbf, exp) for the judged deliveries
         let tickv = tick.first().map_or(0, |x| x.0);
         let d = if d > 0 && d < HOUR && d + tickv >= HOUR { HOUR - 1 - tickv } else { d };
-        rb.push(Op::Deliver { msg: t.msg, to: v, now_ns: Ns(t.issued_at + d), ticks: tick, twin: k == 0, control: None });
+        rb.push(Op::Deliver { msg: t.msg, to: v, now_ns: Ns(t.issued_at + d), ticks: tick, twin: k == 0, control: None, key: None });
     }
     Some(rb.finish())
 }
